@@ -18,7 +18,7 @@ from pathlib import Path
 from vt import wfprog as WP
 
 LEVEL = "model_checking"
-QUICK = ["par_chain", "fanin", "fanout", "split2_then", "split2_par", "two_chains"]
+QUICK = ["par_chain", "fanin", "fanout", "split2_then", "split2_par", "two_chains", "nested"]
 THOROUGH = QUICK + ["chain3", "indep3", "split2_comb", "diamond_plus", "nested", "chain_fan"]
 
 
